@@ -978,3 +978,205 @@ Proof.
     + rewrite (FR6seg 7%nat), (FR5seg 7%nat), G4t by (first [lia | in_seg]).
       rewrite (FR3 "tcpState") by discriminate. reflexivity.
 Qed.
+
+(* ---------------------------------------------------------------- ResetStatAndThroughputElementsInRecord *)
+Fixpoint reset_loop_p (p : string -> bool) (r : record) (l : list (string * string * string)) : ares record :=
+  match l with
+  | [] => AOk r
+  | (e, a, b) :: t =>
+      if p e then ado r' <- reset_names r [e; a; b]; reset_loop_p p r' t else reset_loop_p p r t
+  end.
+Lemma reset_stat_loop_p : forall l r, reset_stat_loop r l = reset_loop_p (contains "Delta") r l.
+Proof.
+  induction l as [|[[e a] b] t IH]; intros; [reflexivity|]. cbn [reset_stat_loop reset_loop_p].
+  destruct (contains "Delta" e); [|apply IH].
+  destruct (reset_names r [e; a; b]); try reflexivity. cbn [abind]. apply IH.
+Qed.
+Lemma reset_tp_loop_p : forall l r, reset_tp_loop r l = reset_loop_p (fun _ => true) r l.
+Proof.
+  induction l as [|[[e a] b] t IH]; intros; [reflexivity|]. cbn [reset_tp_loop reset_loop_p].
+  destruct (reset_names r [e; a; b]); try reflexivity. cbn [abind]. apply IH.
+Qed.
+
+Definition zdp (p : string -> bool) (S : list string) (l : list N) : list N :=
+  map (fun sv => if p (fst sv) then 0 else snd sv) (combine S l).
+
+Lemma reset3_spec : forall r s a b, K64 r s -> K64 r a -> K64 r b -> s <> a -> s <> b -> a <> b ->
+  exists r', reset_names r [s; a; b] = AOk r' /\ shape r' = shape r /\
+    vu64 r' s = 0 /\ vu64 r' a = 0 /\ vu64 r' b = 0 /\
+    (forall n, n <> s -> n <> a -> n <> b -> get r' n = get r n).
+Proof.
+  intros r s a b [x Hs] [y Ha] [z Hb] N1 N2 N3.
+  pose proof (neq_eqb _ _ N1) as E1. pose proof (neq_eqb _ _ N2) as E2. pose proof (neq_eqb _ _ N3) as E3.
+  pose proof (eqb_sym_false _ _ E1) as E4. pose proof (eqb_sym_false _ _ E2) as E5.
+  pose proof (eqb_sym_false _ _ E3) as E6.
+  cbn [reset_names]. rewrite Hs. cbn [reset_val].
+  rewrite get_set, E1, Ha. cbn [reset_val]. rewrite !get_set, E3, E2, Hb. cbn [reset_val].
+  eexists. split; [reflexivity|]. split; [|split; [|split; [|split]]].
+  - rewrite !shape_set; [reflexivity | rewrite Hs; reflexivity | rewrite get_set, E1, Ha; reflexivity
+                         | rewrite !get_set, E3, E2, Hb; reflexivity].
+  - unfold vu64. rewrite !get_set, E5, E4, String.eqb_refl, Hs. reflexivity.
+  - unfold vu64. rewrite !get_set, E6, String.eqb_refl, E1, Ha. reflexivity.
+  - unfold vu64. rewrite !get_set, String.eqb_refl, E3, E2, Hb. reflexivity.
+  - intros n M1 M2 M3. rewrite !get_set.
+    rewrite (neq_eqb b n), (neq_eqb a n), (neq_eqb s n) by congruence. reflexivity.
+Qed.
+
+Lemma reset_loop_spec : forall p S A B r,
+  List.length A = List.length S -> List.length B = List.length S ->
+  NoDup (S ++ A ++ B) ->
+  (forall n, In n (S ++ A ++ B) -> K64 r n) ->
+  exists r', reset_loop_p p r (zip3 S A B) = AOk r' /\ shape r' = shape r /\
+    (forall n, ~ In n (S ++ A ++ B) -> get r' n = get r n) /\
+    map (vu64 r') S = zdp p S (map (vu64 r) S) /\
+    map (vu64 r') A = zdp p S (map (vu64 r) A) /\
+    map (vu64 r') B = zdp p S (map (vu64 r) B).
+Proof.
+  intros p. induction S as [|s S IH]; intros A B r LA LB ND KE.
+  - destruct A, B; simpl in *; try discriminate. exists r. simpl. repeat split; reflexivity.
+  - destruct A as [|a A]; [discriminate|]. destruct B as [|b B]; [discriminate|].
+    destruct (nodup3_head _ _ _ _ _ _ ND) as (Nsa & Nsb & Nab & ND' & Is & Ia & Ib).
+    assert (InS : In s ((s :: S) ++ (a :: A) ++ b :: B)) by (left; reflexivity).
+    assert (InA : In a ((s :: S) ++ (a :: A) ++ b :: B)) by (apply in_or_app; right; left; reflexivity).
+    assert (InB : In b ((s :: S) ++ (a :: A) ++ b :: B))
+      by (apply in_or_app; right; apply in_or_app; right; left; reflexivity).
+    assert (Sub : forall n, In n (S ++ A ++ B) -> In n ((s :: S) ++ (a :: A) ++ b :: B)).
+    { intros n H. apply in_app_or in H. destruct H as [H|H].
+      - right. apply in_or_app. left. assumption.
+      - apply in_app_or in H. apply in_or_app. right. destruct H as [H|H].
+        + right. apply in_or_app. left. assumption.
+        + right. apply in_or_app. right. right. assumption. }
+    assert (STEP : exists r1, (if p s then reset_names r [s; a; b] else AOk r) = AOk r1 /\
+              shape r1 = shape r /\
+              vu64 r1 s = (if p s then 0 else vu64 r s) /\ vu64 r1 a = (if p s then 0 else vu64 r a) /\
+              vu64 r1 b = (if p s then 0 else vu64 r b) /\
+              (forall n, n <> s -> n <> a -> n <> b -> get r1 n = get r n)).
+    { destruct (p s).
+      - destruct (reset3_spec r s a b (KE s InS) (KE a InA) (KE b InB) Nsa Nsb Nab)
+          as (r1 & R1 & R2 & R3 & R4 & R5 & R6). exists r1. repeat split; assumption.
+      - exists r. repeat split; reflexivity. }
+    destruct STEP as (r1 & R1 & SH1 & V1s & V1a & V1b & FR1).
+    assert (FR1' : forall n, In n (S ++ A ++ B) -> get r1 n = get r n).
+    { intros n H. apply FR1; intro; subst; auto. }
+    destruct (IH A B r1) as (r' & LP & SH' & FR' & ES & EA & EB).
+    + simpl in LA; lia.
+    + simpl in LB; lia.
+    + assumption.
+    + intros n H. eapply K64_shape; [exact SH1|]. apply KE. apply Sub. assumption.
+    + exists r'. split; [|split; [|split; [|split; [|split]]]].
+      * cbn [zip3 reset_loop_p]. destruct (p s); [rewrite R1; cbn [abind]; exact LP|].
+        inversion R1; subst r1. exact LP.
+      * rewrite SH'. assumption.
+      * intros n H. rewrite FR'.
+        -- apply FR1; intro; subst; apply H; assumption.
+        -- intro H1. apply H. apply Sub. assumption.
+      * unfold zdp. cbn [map combine fst snd]. fold (zdp p S (map (vu64 r) S)). f_equal.
+        -- rewrite (vu64_ext r1 r' s (FR' s Is)). exact V1s.
+        -- rewrite ES. unfold zdp. do 2 f_equal. apply map_ext_in. intros n H. apply vu64_ext. apply FR1'.
+           apply in_or_app. left. assumption.
+      * unfold zdp. cbn [map combine fst snd]. fold (zdp p S (map (vu64 r) A)). f_equal.
+        -- rewrite (vu64_ext r1 r' a (FR' a Ia)). exact V1a.
+        -- rewrite EA. unfold zdp. do 2 f_equal. apply map_ext_in. intros n H. apply vu64_ext. apply FR1'.
+           apply in_or_app. right. apply in_or_app. left. assumption.
+      * unfold zdp. cbn [map combine fst snd]. fold (zdp p S (map (vu64 r) B)). f_equal.
+        -- rewrite (vu64_ext r1 r' b (FR' b Ib)). exact V1b.
+        -- rewrite EB. unfold zdp. do 2 f_equal. apply map_ext_in. intros n H. apply vu64_ext. apply FR1'.
+           apply in_or_app. right. apply in_or_app. right. assumption.
+Qed.
+
+Lemma zdp_true : forall (S : list string) (l : list N), List.length l = List.length S ->
+  zdp (fun _ => true) S l = map (fun _ => 0) l.
+Proof.
+  unfold zdp. induction S; destruct l; simpl; intros; try discriminate; try reflexivity.
+  f_equal. apply IHS. lia.
+Qed.
+
+Lemma reset_refines : forall c ex sh0,
+  wf_config c = true -> typed_shape c sh0 = true -> stored_ok c sh0 ex ->
+  exists ex', reset_stats c ex = AOk ex' /\ shape ex' = shape ex /\
+    abs c ex' = spec_reset c (abs c ex) /\
+    (forall n, ~ In n (all_names c) -> get ex' n = get ex n).
+Proof.
+  intros c ex sh0 WF TS SO.
+  pose proof (wf_config_facts c WF) as W. pose proof (typed_shape_facts c _ TS) as T.
+  destruct SO as (SO1 & SO2 & SO3). pose proof (wf_nd c W) as ND. pose proof (wf_fe c W) as HFE.
+  assert (ND3 : NoDup (c_stats c ++ c_src_stats c ++ c_dst_stats c)).
+  { pose proof ND as ND0. unfold all_names, added_names in ND0. rewrite <- !app_assoc in ND0.
+    rewrite !app_assoc in ND0. do 5 apply nodup_app_l in ND0. rewrite <- app_assoc in ND0. assumption. }
+  assert (ND4 : NoDup (c_tp c ++ c_src_tp c ++ c_dst_tp c)).
+  { pose proof ND as ND0. unfold all_names, added_names in ND0. rewrite <- !app_assoc in ND0.
+    do 4 apply nodup_app_r in ND0. rewrite !app_assoc in ND0. apply nodup_app_l in ND0.
+    rewrite <- app_assoc in ND0. assumption. }
+  assert (K3 : forall n, In n (c_stats c ++ c_src_stats c ++ c_dst_stats c) -> K64 ex n).
+  { intros n Hn. apply kind_K64. apply in_app_or in Hn. destruct Hn as [Hn|Hn].
+    - apply SO1. apply (ts_stats _ _ T). assumption.
+    - apply SO2. unfold u64_names. apply in_app_or in Hn. destruct Hn as [Hn|Hn].
+      + apply in_or_app. left. assumption.
+      + apply in_or_app. right. apply in_or_app. left. assumption. }
+  destruct (reset_loop_spec (contains "Delta") (c_stats c) (c_src_stats c) (c_dst_stats c) ex
+              (wf_len_src c W) (wf_len_dst c W) ND3 K3) as (r1 & P1 & SH1 & FR1 & ES & EA & EB).
+  assert (K4 : forall n, In n (c_tp c ++ c_src_tp c ++ c_dst_tp c) -> K64 r1 n).
+  { intros n Hn. apply kind_K64. rewrite SH1. apply SO2. unfold u64_names.
+    apply in_or_app. right. apply in_or_app. right. assumption. }
+  destruct (reset_loop_spec (fun _ => true) (c_tp c) (c_src_tp c) (c_dst_tp c) r1) as (r2 & P2 & SH2 & FR2 & ET & ETS & ETD).
+  { rewrite (wf_len_stp c W), (wf_len_tp c W). reflexivity. }
+  { rewrite (wf_len_dtp c W), (wf_len_tp c W). reflexivity. }
+  { exact ND4. }
+  { exact K4. }
+  assert (FR1seg : forall i n, (3 <= i)%nat -> In n (seg c i) -> get r1 n = get ex n).
+  { intros i n Hi3 Hn. apply FR1. intro H. apply in_app_or in H. destruct H as [H|H].
+    - apply (seg_disj c ND i 0 n); [lia | assumption | exact H].
+    - apply in_app_or in H. destruct H as [H|H].
+      + apply (seg_disj c ND i 1 n); [lia | assumption | exact H].
+      + apply (seg_disj c ND i 2 n); [lia | assumption | exact H]. }
+  assert (FR2seg : forall i n, (i < 4 \/ i = 7)%nat -> In n (seg c i) -> get r2 n = get r1 n).
+  { intros i n Hi4 Hn. apply FR2. intro H. apply in_app_or in H. destruct H as [H|H].
+    - apply (seg_disj c ND i 4 n); [lia | assumption | exact H].
+    - apply in_app_or in H. destruct H as [H|H].
+      + apply (seg_disj c ND i 5 n); [lia | assumption | exact H].
+      + apply (seg_disj c ND i 6 n); [lia | assumption | exact H]. }
+  exists r2. split; [|split; [|split]].
+  - unfold reset_stats. rewrite (wf_nil c W). rewrite reset_stat_loop_p. unfold stat_triples. rewrite P1.
+    cbn [abind]. rewrite reset_tp_loop_p. unfold tp_triples. exact P2.
+  - rewrite SH2, SH1. reflexivity.
+  - assert (LM : forall (l : list string) (r : record), List.length (map (vu64 r) l) = List.length l)
+      by (intros; apply map_length).
+    unfold spec_reset, reset_node, abs, abs_node, zero_deltas.
+    cbn [f_src f_dst f_end f_stat f_tp f_reason f_tcp a_end a_stat a_tp].
+    fold (zdp (contains "Delta") (c_stats c) (map (vu64 ex) (c_src_stats c))).
+    fold (zdp (contains "Delta") (c_stats c) (map (vu64 ex) (c_dst_stats c))).
+    fold (zdp (contains "Delta") (c_stats c) (map (vu64 ex) (c_stats c))).
+    rewrite <- ES, <- EA, <- EB.
+    rewrite <- (zdp_true (c_tp c) (map (vu64 ex) (c_tp c))) by (apply LM).
+    rewrite <- (zdp_true (c_tp c) (map (vu64 ex) (c_src_tp c))) by (rewrite LM, (wf_len_stp c W), (wf_len_tp c W); reflexivity).
+    rewrite <- (zdp_true (c_tp c) (map (vu64 ex) (c_dst_tp c))) by (rewrite LM, (wf_len_dtp c W), (wf_len_tp c W); reflexivity).
+    assert (X4 : map (vu64 ex) (c_tp c) = map (vu64 r1) (c_tp c)).
+    { apply map_ext_in. intros n Hn. symmetry. apply vu64_ext. apply (FR1seg 4%nat); [lia | exact Hn]. }
+    assert (X5 : map (vu64 ex) (c_src_tp c) = map (vu64 r1) (c_src_tp c)).
+    { apply map_ext_in. intros n Hn. symmetry. apply vu64_ext. apply (FR1seg 5%nat); [lia | exact Hn]. }
+    assert (X6 : map (vu64 ex) (c_dst_tp c) = map (vu64 r1) (c_dst_tp c)).
+    { apply map_ext_in. intros n Hn. symmetry. apply vu64_ext. apply (FR1seg 6%nat); [lia | exact Hn]. }
+    rewrite X4, X5, X6, <- ET, <- ETS, <- ETD.
+    f_equal.
+    + f_equal.
+      * rewrite (vu32_ext r1 r2 src_end_name), (vu32_ext ex r1 src_end_name); [reflexivity | |].
+        -- apply (FR1seg 3%nat); [lia | unfold seg; simpl; rewrite HFE; in_seg].
+        -- apply (FR2seg 3%nat); [lia | unfold seg; simpl; rewrite HFE; in_seg].
+      * apply map_ext_in. intros n Hn. apply vu64_ext. apply (FR2seg 1%nat); [lia | exact Hn].
+    + f_equal.
+      * rewrite (vu32_ext r1 r2 dst_end_name), (vu32_ext ex r1 dst_end_name); [reflexivity | |].
+        -- apply (FR1seg 3%nat); [lia | unfold seg; simpl; rewrite HFE; in_seg].
+        -- apply (FR2seg 3%nat); [lia | unfold seg; simpl; rewrite HFE; in_seg].
+      * apply map_ext_in. intros n Hn. apply vu64_ext. apply (FR2seg 2%nat); [lia | exact Hn].
+    + rewrite (vu32_ext r1 r2 "flowEndSeconds"), (vu32_ext ex r1 "flowEndSeconds"); [reflexivity | |].
+      * apply (FR1seg 7%nat); [lia | in_seg].
+      * apply (FR2seg 7%nat); [lia | in_seg].
+    + apply map_ext_in. intros n Hn. apply vu64_ext. apply (FR2seg 0%nat); [lia | exact Hn].
+    + rewrite (FR2seg 7%nat), (FR1seg 7%nat) by (first [lia | in_seg]). reflexivity.
+    + rewrite (FR2seg 7%nat), (FR1seg 7%nat) by (first [lia | in_seg]). reflexivity.
+  - intros n Hn. rewrite FR2, FR1; [reflexivity | |].
+    + intro H. apply Hn. apply in_app_or in H. destruct H as [H|H]; [apply (seg_in_all c 0); exact H|].
+      apply in_app_or in H. destruct H as [H|H]; [apply (seg_in_all c 1) | apply (seg_in_all c 2)]; exact H.
+    + intro H. apply Hn. apply in_app_or in H. destruct H as [H|H]; [apply (seg_in_all c 4); exact H|].
+      apply in_app_or in H. destruct H as [H|H]; [apply (seg_in_all c 5) | apply (seg_in_all c 6)]; exact H.
+Qed.
